@@ -427,7 +427,8 @@ func runRequestCtx(integ int, p godi.Provider, nmw int, exit, failAt int, rec *w
 			}))
 		}
 		if !wDefaultErr {
-			opts = append(opts, godigin.WithErrorHandler(func(c *gin.Context, err error) { rec.add("WErrHandler"); c.AbortWithStatus(500) }))
+			// (an error handler that writes its answer and does not abort: stopping the chain is the middleware's business)
+			opts = append(opts, godigin.WithErrorHandler(func(c *gin.Context, err error) { rec.add("WErrHandler"); c.String(500, "e") }))
 		}
 		e.Use(godigin.ScopeMiddleware(p, opts...))
 		if wTwoStacks {
